@@ -266,6 +266,8 @@ int main(void) {
         unsigned v = a[5] == 0 ? (unsigned)a[4] * 0x01010101u           /* solid */
                    : a[5] == 1 ? ((x / 4 + y / 4) & 1 ? 0x00ffffffu : (unsigned)a[4] * 0x010101u)   /* two colours, blocks */
                    : a[5] == 2 ? (lcg(&s) & 3) * 0x00554433u             /* four colours, noise */
+                   : a[5] == 4 ? (y < a[1] + (3 * a[3]) / 4 ? (unsigned)a[4] * 0x01010101u : lcg(&s))   /* solid top 3/4, noise below */
+                   : a[5] == 5 ? (x < a[0] + a[2] / 2 ? (unsigned)a[4] * 0x01010101u : lcg(&s))         /* solid left half, noise right */
                    : lcg(&s);                                            /* noise */
         for (b = 0; b < fbBypp; b++) fb[((size_t)y * fbW + x) * fbBypp + b] = (char)(v >> (8 * b));
       }
